@@ -43,12 +43,25 @@ func (transaction *Transaction) UnmarshalJSON(data []byte) error {
 	if err := json.Unmarshal(data, &dto); err != nil {
 		return err
 	}
+	for _, input := range dto.Inputs {
+		if input == nil {
+			return errors.New("an input of the transaction is null")
+		}
+	}
+	for _, output := range dto.Outputs {
+		if output == nil {
+			return errors.New("an output of the transaction is null")
+		}
+	}
 	id, err := generateId(dto.Inputs, dto.Outputs, dto.Timestamp)
 	if err != nil {
 		return fmt.Errorf("failed to generate id: %w", err)
 	}
 	if id != dto.Id {
 		return fmt.Errorf("wrong transaction ID, provided: %s, calculated: %s", dto.Id, id)
+	}
+	if len(dto.Outputs) == 0 && len(dto.Inputs) != 0 {
+		return errors.New("the transaction has no output")
 	}
 	if len(dto.Inputs) == 0 {
 		if len(dto.Outputs) > 1 {
